@@ -94,12 +94,13 @@ if bd.is_dir():
         nben += 1
         notes = (d / "notes.md").read_text().splitlines() if (d / "notes.md").exists() else [""]
         first = next((l.strip("# ").strip() for l in notes if l.strip()), "")
-        kind = {"a": "refactoring", "b": "equivalent re-spelling", "c": "benign extension", "d": "deep refactoring (wave 5)", "e": "deep refactoring (wave 5)", "f": "deep refactoring (wave 5)", "g": "refactoring (wave 7)", "h": "equivalent re-spelling (wave 7)", "i": "benign extension (wave 7)"}.get(d.name[-1], d.name.split("_")[-1])
+        kind = {"a": "refactoring", "b": "equivalent re-spelling", "c": "benign extension", "d": "deep refactoring (wave 5)", "e": "deep refactoring (wave 5)", "f": "deep refactoring (wave 5)", "g": "refactoring (wave 7)", "h": "equivalent re-spelling (wave 7)", "i": "benign extension (wave 7)", "j": "control-flow restructuring (wave 9)", "k": "equivalent re-spelling of data (wave 9)", "l": "benign extension (wave 9)"}.get(d.name[-1], d.name.split("_")[-1])
         rows.append(f"| {d.name} | {kind} | {esc(first[:150])} |")
 BENIGN = "\n".join(rows)
 
 wave4 = (V / "tools" / "wave4.md").read_text().strip() if (V / "tools" / "wave4.md").exists() else "in progress when this file was generated."
 wave67 = (V / "tools" / "wave67.md").read_text().strip() if (V / "tools" / "wave67.md").exists() else "in progress when this file was generated."
+wave89 = (V / "tools" / "wave89.md").read_text().strip() if (V / "tools" / "wave89.md").exists() else "in progress when this file was generated."
 nrules = sum(len(importlib.import_module(f"sa.rules.{p['id'].lower()}").RULES) for p in props)
 stats = (f"Current numbers: {nrules} rules over 20 properties, {len(fixed)} repaired and {len(known)} known findings, "
          f"{n_fix_commits} `fix:` commits in `/repo`, {nseeds} stored mutations, {nben} stored behaviour-preserving changes.")
@@ -116,7 +117,7 @@ except Exception as e:      # the design text must still be generated
 t = (V / "tools" / "design_template.md").read_text()
 for k, v in {"{{PER_PROPERTY}}": PER, "{{FINDINGS_FIXED}}": FIXED, "{{FINDINGS_KNOWN}}": KNOWN, "{{SEEDS}}": SEEDS,
              "{{BENIGN}}": BENIGN, "{{STATS}}": stats, "{{N_FIXED}}": str(len(fixed)), "{{N_KNOWN}}": str(len(known)),
-             "{{N_COMMITS}}": str(n_fix_commits), "{{WAVE4}}": wave4, "{{WAVE67}}": wave67, "{{INLINE_STATS}}": inline_stats}.items():
+             "{{N_COMMITS}}": str(n_fix_commits), "{{WAVE4}}": wave4, "{{WAVE67}}": wave67, "{{WAVE89}}": wave89, "{{INLINE_STATS}}": inline_stats}.items():
     t = t.replace(k, v)
 (V / "DESIGN.md").write_text(t)
 print("DESIGN.md written:", len(t.splitlines()), "lines;", stats)
